@@ -32,6 +32,11 @@ package evm
 //@   ensures[C18.evm_export_address_faithful] forall i int :: (0 <= i && i < kvSeqLen(kvHas[kvId(layer(ctx), payload(k.storeKey))], b1(4)) && evmIdxExported(kvHas[kvId(layer(ctx), payload(k.storeKey))], kvVal[kvId(layer(ctx), payload(k.storeKey))], i)) ==> (0 <= evmExpCount(kvHas[kvId(layer(ctx), payload(k.storeKey))], kvVal[kvId(layer(ctx), payload(k.storeKey))], i) && evmExpCount(kvHas[kvId(layer(ctx), payload(k.storeKey))], kvVal[kvId(layer(ctx), payload(k.storeKey))], i) < len(gs.Accounts) && gs.Accounts[evmExpCount(kvHas[kvId(layer(ctx), payload(k.storeKey))], kvVal[kvId(layer(ctx), payload(k.storeKey))], i)].Address == evmIdxAddr(kvHas[kvId(layer(ctx), payload(k.storeKey))], i).String())
 //@   ensures[C18.evm_export_code_faithful] forall i int :: (0 <= i && i < kvSeqLen(kvHas[kvId(layer(ctx), payload(k.storeKey))], b1(4)) && evmIdxExported(kvHas[kvId(layer(ctx), payload(k.storeKey))], kvVal[kvId(layer(ctx), payload(k.storeKey))], i)) ==> gs.Accounts[evmExpCount(kvHas[kvId(layer(ctx), payload(k.storeKey))], kvVal[kvId(layer(ctx), payload(k.storeKey))], i)].Code == hexEnc(evmCodeOf(kvHas[kvId(layer(ctx), payload(k.storeKey))], kvVal[kvId(layer(ctx), payload(k.storeKey))], evmIdxHash(kvHas[kvId(layer(ctx), payload(k.storeKey))], kvVal[kvId(layer(ctx), payload(k.storeKey))], i)))
 //@   ensures[C18.evm_export_storage_faithful] forall i int :: (0 <= i && i < kvSeqLen(kvHas[kvId(layer(ctx), payload(k.storeKey))], b1(4)) && evmIdxExported(kvHas[kvId(layer(ctx), payload(k.storeKey))], kvVal[kvId(layer(ctx), payload(k.storeKey))], i)) ==> evmExpStorage(gs.Accounts[evmExpCount(kvHas[kvId(layer(ctx), payload(k.storeKey))], kvVal[kvId(layer(ctx), payload(k.storeKey))], i)].Storage, kvHas[kvId(layer(ctx), payload(k.storeKey))], kvVal[kvId(layer(ctx), payload(k.storeKey))], evmIdxAddr(kvHas[kvId(layer(ctx), payload(k.storeKey))], i))
+// "The export determines the view" needs every owner of storage records to be exported. Only addresses with a non-empty code
+// hash are: the storage of an address WITHOUT code hash (a deployment whose constructor did SSTORE and returned no runtime
+// code; a genesis account with storage but no code) is dropped. This clause FAILS on this tree (finding F8-evm,
+// /verif/docs/findings-gen.md, replayed: /verif/replay/findings/gen_C18_codeless_storage_test.go); kept failing, not repaired.
+//@   ensures[C18.evm_export_determines_storage] forall a common.Address :: kvSeqLen(kvHas[kvId(layer(ctx), payload(k.storeKey))], evmStoragePrefixB(a)) > 0 ==> (kvHas[kvId(layer(ctx), payload(k.storeKey))][evmCodeHashKeyB(a)] && !isEmptyCodeHash(hashOfBytes(kvVal[kvId(layer(ctx), payload(k.storeKey))][evmCodeHashKeyB(a)])))
 //@   ensures[C18.evm_export_params] gs.Params.EvmDenom == evmDenomOf[layer(ctx)] && gs.Params.EnableCreate == evmEnableCreate[layer(ctx)] && gs.Params.EnableCall == evmEnableCall[layer(ctx)]
 //@   panics never
 //@ loop 1 of IterateContracts
